@@ -609,20 +609,30 @@ func (g *QGen) AliasBounds(cs []Clause, pct int, objToo bool) ([]Clause, bool) {
 	out := append([]Clause{}, cs...)
 	changed := false
 	usedAsSide := map[string]bool{} // bindings already serving as an interval side: their provider must stay
+	// no clause both provides an interval side and has interval sides of its own: the planner
+	// evaluates a bounded clause after its providers, which mutual dependencies make impossible
+	// (such statements are rejected when planned; outside the fragment)
+	hasSides := map[int]bool{}
+	provides := map[int]bool{}
+	providerOf := map[string][]int{}
 	for i := range out {
+		if provides[i] {
+			continue
+		}
 		var pool []string
 		own := map[string]bool{}
 		for _, b := range out[i].Bindings() {
 			own[b] = true
 		}
 		for j := range out {
-			if j == i || out[j].Optional {
+			if j == i || out[j].Optional || hasSides[j] {
 				continue
 			}
 			for _, b := range timeBindings(out[j]) {
 				// type-correct statements only: the binding holds a time wherever it occurs
 				if !own[b] && onlyTimePositions(out, b) {
 					pool = append(pool, b)
+					providerOf[b] = append(providerOf[b], j)
 				}
 			}
 		}
@@ -665,6 +675,12 @@ func (g *QGen) AliasBounds(cs []Clause, pct int, objToo bool) ([]Clause, bool) {
 				c.O.Bound = &nb
 			}
 			usedAsSide[nb.LoB], usedAsSide[nb.HiB] = true, true
+			hasSides[i] = true
+			for _, side := range []string{nb.LoB, nb.HiB} {
+				for _, j := range providerOf[side] {
+					provides[j] = true
+				}
+			}
 			changed = true
 			break
 		}
